@@ -80,36 +80,30 @@ class ListWrapper(typing.MutableSequence[T]):
         i: typing.Union[typing_extensions.SupportsIndex, slice],
         v: typing.Union[T, typing.Iterable[T]],
     ) -> None:
-        # The hooks may themselves edit this list (adding a node that is
-        # already in it moves the node), so positions are never carried
-        # across a hook call: assignment is deletion followed by insertion,
-        # and anything invalid is rejected before the first hook runs.
+        # Anything invalid (an index out of range, an extended slice of the
+        # wrong size) is rejected before the first hook runs.
         if isinstance(i, slice):
             assert isinstance(v, typing.Iterable)
             values = list(v)
-            start, stop, step = i.indices(len(self))
-            if step != 1:
-                indices = range(start, stop, step)
-                if len(values) != len(indices):
-                    raise ValueError(
-                        "attempt to assign sequence of size %d "
-                        "to extended slice of size %d"
-                        % (len(values), len(indices))
-                    )
-                for index, value in zip(indices, values):
-                    self[index] = value
-                return
-            del self[start : max(start, stop)]
-            for offset, value in enumerate(values):
-                self.insert(start + offset, value)
+            trial = list(self._data)
+            trial[i] = values
+            removed = self._data[i]
         elif -len(self._data) <= i.__index__() < len(self._data):
-            index = i.__index__()
-            if index < 0:
-                index += len(self._data)
-            del self[index]
-            self.insert(index, typing.cast(T, v))
+            values = [typing.cast(T, v)]
+            removed = [self._data[i]]
         else:
             raise IndexError("list assignment index out of range")
+        for value in removed:
+            self._remove(value)
+        # The new items are in place before their add hooks run: the hook of a
+        # node that is still elsewhere in this list moves it by removing its
+        # other occurrence, which must not invalidate a position kept here.
+        if isinstance(i, slice):
+            self._data[i] = values
+        else:
+            self._data[i] = values[0]
+        for value in values:
+            self._add(value)
 
     @typing.overload
     def __delitem__(self, i: int) -> None:
